@@ -17,6 +17,9 @@
     Props/GenLogicStructs  Gen/LogicStructs  tracked_struct.rs ↔ Model/Structs, CoreSpec  (C06)
     Props/GenLogicDG       Gen/LogicDG       runtime/dependency_graph.rs, runtime.rs
                                              ↔ Model/SyncDG                   (C14, C16–C19)
+    Props/GenLogicRuntime  Gen/LogicRuntime  runtime.rs, revision.rs, input.rs, input_field.rs, database.rs,
+                                             setup_input_struct.rs (write-side revision / durability
+                                             bookkeeping) ↔ Model/Core, Core3, CoreSpec, CoreAcc (C01, C02)
 
   This module only collects them (all theorems are in namespace `SalsaVerif.Props.GenLogic`).
 -/
@@ -25,3 +28,4 @@ import SalsaVerif.Props.GenLogicIntern
 import SalsaVerif.Props.GenLogicCycle
 import SalsaVerif.Props.GenLogicStructs
 import SalsaVerif.Props.GenLogicDG
+import SalsaVerif.Props.GenLogicRuntime
